@@ -102,6 +102,23 @@ fn dump<T: Serialize, R: Write>(
     return Ok(());
 }
 
+/// Verification hook: the private `dump` over an arbitrary writer.
+#[cfg(feature = "verif-hooks")]
+pub fn verif_dump<T: Serialize, R: Write>(
+    chunk_writer: &mut R,
+    items: impl IntoIterator<Item = T>,
+) -> Result<(), ExternalChunkError> {
+    dump(chunk_writer, items)
+}
+
+#[cfg(feature = "verif-hooks")]
+impl<T> ExternalChunk<T> {
+    /// Verification hook: a chunk reading from an arbitrary byte source.
+    pub fn verif_from_reader(reader: Box<dyn Read>) -> Self {
+        Self { reader, item_type: PhantomData }
+    }
+}
+
 impl<T> Iterator for ExternalChunk<T>
 where
     T: serde::ser::Serialize + serde::de::DeserializeOwned,
